@@ -191,6 +191,17 @@ def entry_parse_check(ctx, res, rule):
               "%s read the writer's restart interval" % sorted(readers - {"block_builder_init", "block_builder_add"}))
 
 
+def _vecbytes(v):
+    """uint64_vec_bytes(X) is 8 * uint64_vec_size(X); (E/#2) of an even sum is halved."""
+    v = strip_tags(v)
+    v = re.sub(r"uint64_vec_bytes\(([^()]*)\)", r"(uint64_vec_size(\1)*#8)", v)
+    m = re.search(r"\(\(uint64_vec_size\(([^()]*)\)\*#8\)/#2\)", v)
+    while m:
+        v = v[:m.start()] + "(uint64_vec_size(%s)*#4)" % m.group(1) + v[m.end():]
+        m = re.search(r"\(\(uint64_vec_size\(([^()]*)\)\*#8\)/#2\)", v)
+    return v
+
+
 def restart_width_check(ctx, res, rule):
     """Writer and reader choose 64-bit restart offsets under the same threshold."""
     prog, cg = ctx.prog, ctx.cg
@@ -201,13 +212,7 @@ def restart_width_check(ctx, res, rule):
     grp = prog.need("get_restart_point", BL)
     for g in (fin, est, bi, grp):
         res.saw(g)
-    inits = decl_inits(fin)
-    r64 = None
-    for n in walk(fin.body):
-        if n["k"] == "BinaryOperator" and n.get("op") == "=" and canon(n["kids"][0]) == "restart64":
-            r64 = canon(n["kids"][1])
-    res.check(r64 == "(ubuf_bytes(b->buf)>#%d)" % U32, rule, site(fin, "restart64"), "64-bit restarts iff entries region > UINT32_MAX",
-              "writer switches to 64-bit restart offsets on %s" % r64, fin.loc(fin.body))
+    # (the threshold itself is read off the paths below: each path that emits restart offsets carries its comparison)
     # emission widths per branch
     ev = APE.run(prog, cg, fin, bound=APE.BOUND)
     for p in ev.paths:
@@ -232,14 +237,28 @@ def restart_width_check(ctx, res, rule):
             res.check(len(cnt) == 1 and last_enc and last_enc[-1] is cnt[0] and det and evs.index(det[0]) > evs.index(cnt[0]), rule,
                       site(fin, "restart-count"), "u32le number of restarts is the last thing written before the buffer is handed out",
                       "block does not end with the u32le restart count", fin.loc(fin.body), p.describe(fin))
-    # size estimate agrees with what finish emits
-    rets = [(canon(kids(n)[0]), n) for n in walk(est.body) if n["k"] == "ReturnStmt"]
-    cond = [canon(n["cond"]) for n in walk(est.body) if n["k"] == "IfStmt"]
-    small = "((ubuf_bytes(b->buf)+(uint64_vec_bytes(b->restarts)/#2))+#4)"
-    large_ = "((ubuf_bytes(b->buf)+uint64_vec_bytes(b->restarts))+#4)"
-    res.check(cond == ["(ubuf_bytes(b->buf)>#%d)" % U32] and [r[0] for r in rets] == [large_, small], rule, site(est, "estimate"),
-              "estimate = entries + 8*restarts + 4 when large, entries + 4*restarts + 4 otherwise (same threshold as finish)",
-              "size estimate is %s under %s" % ([r[0] for r in rets], cond), est.loc(est.body))
+    # size estimate agrees with what finish emits: per path, entries + width * restarts + 4 under the same threshold
+    eve = APE.run(prog, cg, est, bound=APE.BOUND)
+    nest = 0
+    for p in eve.paths:
+        if p.end != "exit" or p.ret() is None:
+            continue
+        large = None
+        for (a, b), v in p.cons.items():
+            if a.startswith("ubuf_bytes(") and b == "#%d" % U32:
+                large = v == frozenset((GT,))
+        if large is None:
+            res.bad(rule, site(est, "estimate"), "the size estimate does not depend on the 32/64-bit threshold of the entries region", est.loc(est.body), p.describe(est))
+            continue
+        nest += 1
+        t, c = linsum(_vecbytes(APE.vstr(p.ret())))
+        w = 8 if large else 4
+        want = {"ubuf_bytes(b->buf)": 1, "uint64_vec_size(b->restarts)": w}
+        res.check(t == want and c == 4, rule, site(est, "estimate:%s" % ("large" if large else "small")),
+                  "estimate = entries + %d per restart + 4 when the region is %s (same threshold as finish)" % (w, "large" if large else "small"),
+                  "size estimate for a %s block is %s + %d" % ("large" if large else "small", t, c), est.loc(est.body), p.describe(est))
+    if nest < 2:
+        res.bad(rule, site(est, "estimate"), "size estimate has %d case(s), expected one per restart width" % nest, est.loc(est.body))
     rv = prog.record("uint64_vec__vector", BB)
     # reader side
     conds = [canon(B.cond) for B in cond_blocks(bi)]
